@@ -7,7 +7,7 @@
 EXTENDS ConfigProps, Json
 CONSTANTS Which, MaxLen, Emit
 VARIABLES c
-Tokens == Params \cup {"true", "FALSE", "5", "-1", "2.5", "-0.5", "5.0", "1e3", "abc", "[]", "none", "zzz"}
+Tokens == Params \cup {"true", "FALSE", "5", "-1", "2.5", "-0.5", "5.0", "1e3", "0", "0.0", "abc", "[]", "none", "zzz"}
 Kinds == {"flag", "int", "negint", "float", "negfloat", "expfloat", "intfloat", "str", "nargs2", "repeat"}     \* repeat: the previous value option again with another value (argparse: last one wins)
 Cfg0 == [B |-> [t |-> "bool", v |-> FALSE], L |-> [t |-> "list", v |-> <<[t |-> "str", v |-> "rmse"]>>],
          N |-> [t |-> "float", v |-> "1.5"], S |-> [t |-> "str", v |-> "pdf"]]
